@@ -61,8 +61,10 @@ fn observe<T>(what: &str, len: usize, f: impl FnOnce() -> T) -> Result<T, Fail> 
 /// The whole C04 oracle for one byte string.  `all_type_codes` additionally tries every type code.
 pub fn check_bytes(b: &[u8], all_type_codes: bool) -> Check {
     crate::hang::enter(b);
+    crate::journal::publish_bytes(b);
     let r = check_bytes_inner(b, all_type_codes);
     crate::hang::leave();
+    crate::journal::clear();
     r
 }
 
